@@ -245,6 +245,26 @@ func ProgHigh() *Schema {
 	return &Schema{ID: "high", Msgs: []*Message{node, root}, Root: root}
 }
 
+// ProgSameName: two DIFFERENT message types with one simple name, declared inside two other messages and both
+// reachable from the root (a per-name descriptor cache would hand one of them the other's fields).
+//
+//	RootQ { Order order=1; Refund refund=2; }
+//	Order { Item item=1; repeated Item items=2; int32 n=3; }   Order.Item  { string sku=1; int32 qty=2; }
+//	Refund { Item item=1; map<string,Item> m=2; }              Refund.Item { string reason=1; sint64 amount=2; double d=3; }
+func ProgSameName() *Schema {
+	order := &Message{Name: "Order"}
+	refund := &Message{Name: "Refund"}
+	oi := &Message{Name: "Item", Parent: order}
+	ri := &Message{Name: "Item", Parent: refund}
+	root := &Message{Name: "RootQ"}
+	oi.Add(fld("sku", 1, KString)).Add(fld("qty", 2, KInt32))
+	ri.Add(fld("reason", 1, KString)).Add(fld("amount", 2, KSint64)).Add(fld("d", 3, KDouble))
+	order.Add(fld("item", 1, KMessage).msg(oi)).Add(rfld("items", 2, KMessage).msg(oi)).Add(fld("n", 3, KInt32))
+	refund.Add(fld("item", 1, KMessage).msg(ri)).Add(mfld("m", 2, KString, KMessage).msg(ri))
+	root.Add(fld("order", 1, KMessage).msg(order)).Add(fld("refund", 2, KMessage).msg(refund))
+	return &Schema{ID: "samename", Msgs: []*Message{order, oi, refund, ri, root}, Root: root}
+}
+
 // ---------- message builders
 
 // Named value for enumeration.
